@@ -288,6 +288,18 @@ def gen_exhaustive(tier, seed):
     return cases
 
 
+def ftf_monitor(case, il, sl):
+    """frames-then-fault: a server Connection.Close ahead of the fault stays the reason the loop ends
+    with (the fault behind it does not replace it)."""
+    if not any("0a0032" in o and o.startswith("feed") for o in case.ops):
+        return None
+    lines = [l for l in il if l.startswith("res err")]
+    bad = [l for l in lines if l.split()[2] in ("UnexpectedSocketClose", "IoErrorReadingSocket", "MalformedFrame")]
+    if bad and not any(o.startswith("send 0 close0") for o in case.ops):
+        return ("the server's Connection.Close(320) and the end of its stream / an error behind it were read in one wake-up: the loop ended with `%s` instead of the server's close" % bad[0], "c06-close-then-hangup")
+    return None
+
+
 def suites(tier, seed):
     tail = (amqp.heartbeat() + amqp.connection_close(320, "bye")).hex()
     import machgen as mg
@@ -295,7 +307,7 @@ def suites(tier, seed):
     return [
         Suite("bursts-in-the-loop", "machine", lambda: mg.burst_cases(Rng(seed + 36)), monitor=c03.monitor, nontrivial=lambda c, il: True, canon=mg.canon_nondet, shrink=False,
               rule="the read path of the real I/O loop (Inner::read_from_stream over FrameBuffer): hundreds of frames readable in one wake-up are all handed on in that wake-up"),
-        Suite("frames-then-fault-in-the-loop", "machine", lambda: mg.frames_then_fault_cases(Rng(seed + 37)), monitor=lambda c, il, sl: None, nontrivial=lambda c, il: True, canon=mg.canon_nondet, shrink=False,
+        Suite("frames-then-fault-in-the-loop", "machine", lambda: mg.frames_then_fault_cases(Rng(seed + 37)), monitor=ftf_monitor, nontrivial=lambda c, il: True, canon=mg.canon_nondet, shrink=False,
               rule="complete frames (a server Connection.Close, deliveries, a server Channel.Close, a reply) followed in the same wake-up by EOF / an I/O error / an unparsable frame: the frames ahead of the fault are acted on before the fault is reported (exact diff against the Lean Conn model; the oracle for what 'acted on' means is C05 / C08)"),
         Suite("bytes-behind-open-ok-e2e", "hbe2e", lambda: [Case("t%d" % k, ["run 0 0 silent 900 tail=%s,%d" % (tail, k)], {"keep_prefix": 0}) for k in ([0, 1, 3, 7, 8, 9, 20, len(tail) // 2] if tier == "quick" else [0, 1, 2, 3, 4, 5, 6, 7, 8, 9, 12, 15, 16, 20, len(tail) // 2 - 1, len(tail) // 2])],
               monitor=lambda c, il, sl: None if any(l.startswith("close err ServerClosedConnection 320") for l in il) else (
